@@ -2682,6 +2682,7 @@ func ruleChildResult(w *World, r *Report, pf *patchFamily) {
 			node = fn.Params[0]
 		}
 		bad := ""
+		keepBad := ""
 		for _, pc := range calls {
 			call, ok := pc.call.(*ssa.Call)
 			if !ok {
@@ -2694,12 +2695,13 @@ func ruleChildResult(w *World, r *Report, pf *patchFamily) {
 			} else if len(call.Call.Args) > 0 {
 				target = call.Call.Args[0]
 			}
-			if target == nil || strip(target) == node {
-				continue // the whole job is delegated (merge strategy): fine
+			if target == nil {
+				continue
 			}
+			sameNode := strip(target) == node // the whole job is delegated (merge strategy): returning its result is fine
 			if c, isCall := strip(target).(*ssa.Call); isCall && len(c.Call.Args) >= 1 && strip(c.Call.Args[0]) == node {
 				if sf := staticCallee(c); sf != nil && (w.helperIs(sf, "dispatch") || fnPkg(sf) == pf.pkg.Pkg && sameNodeView(sf)) {
-					continue // the same node seen as list / set / multiset
+					sameNode = true // the same node seen as list / set / multiset
 				}
 			}
 			n++
@@ -2714,15 +2716,69 @@ func ruleChildResult(w *World, r *Report, pf *patchFamily) {
 				continue
 			}
 			for _, ret := range returnsOf(fn) {
-				if !isNilErrReturn(ret) && !flowsTo(res, ret.Results[0], 0) {
-					continue
+				if sameNode {
+					break
 				}
 				if flowsTo(res, ret.Results[0], 0) {
 					bad = w.Pos(ret.Pos())
 				}
 			}
+			// whether the patched child is kept in this node is decided by looking at the patched child:
+			// every branch between the call and the store of its result tests something derived from the call
+			d := NewDeriv(w, fn)
+			allInstrs(fn, func(in ssa.Instruction) {
+				var stored ssa.Value
+				switch x := in.(type) {
+				case *ssa.MapUpdate:
+					stored = x.Value
+				case *ssa.Store:
+					if _, isIA := x.Addr.(*ssa.IndexAddr); isIA {
+						stored = x.Val
+					}
+				}
+				if stored == nil || !flowsTo(res, stored, 0) {
+					return
+				}
+				for _, bb := range fn.Blocks {
+					cond, tE, fE, ok := branchEdges(bb)
+					if !ok || !call.Block().Dominates(bb) || bb == call.Block() && false {
+						continue
+					}
+					if !(edgeDominates(tE, in.Block()) || edgeDominates(fE, in.Block()) || tE.To() == in.Block() && len(in.Block().Preds) == 1 || fE.To() == in.Block() && len(in.Block().Preds) == 1) {
+						continue
+					}
+					fromCall := false
+					var mentions func(v ssa.Value, depth int)
+					seenM := map[ssa.Value]bool{}
+					mentions = func(v ssa.Value, depth int) {
+						if v == nil || depth > 8 || seenM[v] || fromCall {
+							return
+						}
+						seenM[v] = true
+						if v == ssa.Value(call) {
+							fromCall = true
+							return
+						}
+						if in2, isIn := v.(ssa.Instruction); isIn {
+							for _, op := range in2.Operands(nil) {
+								if *op != nil {
+									mentions(*op, depth+1)
+								}
+							}
+						}
+					}
+					mentions(cond, 0)
+					_ = d
+					if !fromCall {
+						keepBad = fmt.Sprintf("the store of the patched child at %s is decided by a test at %s that does not look at the patched child", w.Pos(in.Pos()), w.Pos(cond.Pos()))
+					}
+				}
+			})
 		}
 		if n > 0 {
+			r.Check(keepBad == "", rule, fnName(fn)+":child-kept-by-looking-at-it", w.Pos(fn.Pos()),
+				"whether the patched child is stored into this node depends only on tests of what patching the child returned",
+				keepBad+": a child that must be kept (an intermediate object created for a deeper hunk) is dropped, or one that must go is kept, depending on the hunk instead of on the outcome")
 			r.Check(bad == "", rule, fnName(fn)+":returns-own-node", w.Pos(fn.Pos()),
 				"what patching a child returned is stored into this node, not returned in its place",
 				"the node returned at "+bad+" is what patching the child returned: the parent is replaced by (a wrapper of) its patched child and every sibling of the addressed member is lost")
